@@ -453,6 +453,8 @@ BREAKING = [
      '            possibly_stripped_value = value.strip(" ")', "            possibly_stripped_value = value.strip()", ["C03", "C20"]),
     ("DistinctCount: names in the count expression not looked at", "cutplace/checks.py",
      "        self._validate_names_in_expression()\n", "", ["C09", "C10"]),
+    ("command line: positionals matched before an option is seen", "cutplace/applications.py",
+     "        args = parser.parse_intermixed_args(argv[1:])", "        args = parser.parse_args(argv[1:])", ["C18"]),
     ("DecimalRange: only NaN refused", "cutplace/ranges.py",
      "        if not value_as_decimal.is_finite():", "        if value_as_decimal.is_nan():", ["C02"]),
     ("__exit__: end checks replace the pending error", "cutplace/validio.py",
